@@ -76,6 +76,9 @@ def gen_structure(seed, tier, i):
         return structures.gen_many(s, 10, 16)
     if mode < 0.35:
         return structures.gen_broom(s)
+    if mode < 0.352:
+        # ribosomal-RNA size: about 4 000 positions and 300-450 stems (the 6EK0 test input has 3 929 and 410)
+        return structures.gen_large(s, 300, 450)
     if mode < 0.38:
         return structures.gen_large(s)
     if mode < 0.395:
@@ -194,7 +197,8 @@ def run_index(seed, tier, i, tmpdir):
     if first.get("solves") and first["solves"][0].get("truncated"):
         out["truncated"] = 1
     if knotted and n_opt > 1:
-        ties = tie_indexes(n_opt, plan["tie_cap"])
+        # (replaying an optimum of a ribosome-size model costs most of a second: a handful is enough there)
+        ties = tie_indexes(n_opt, plan["tie_cap"] if len(st["triples"]) <= 1500 else 6)
         base = {"triples": st["triples"], "op": "dot_bracket", "via": "argument", "backend": "sim-api"}
         run_b = {"property": NAME, "family": st["family"], "loglevel": run_a.get("loglevel"),
                  "steps": [dict(base, fault={"kind": "ok", "tie": t}) for t in ties]}
